@@ -168,9 +168,10 @@ class Repo:
                 raise AnalysisError(f"{rel} does not parse: {e}")
             inlined = []
             if INLINE and rel.startswith(PKG):
-                from .inline import inline_new_helpers, canonicalise_accumulate_loops
+                from .inline import inline_new_helpers, canonicalise_accumulate_loops, renest_lifted
 
-                inlined = inline_new_helpers(tree, rel)
+                renested = renest_lifted(tree, rel)
+                inlined = [(f"renested {x} <- {g}", 0) for x, g in renested] + inline_new_helpers(tree, rel)
                 canonicalise_accumulate_loops(tree)
             _set_parents(tree)
             modname = rel[:-3].replace(os.sep, ".")
@@ -184,6 +185,35 @@ class Repo:
         for m in self.modules.values():
             for c in m.classes.values():
                 self.class_index.setdefault(c.name, []).append(c)
+        self._register_namedtuple_returns()
+
+    def _register_namedtuple_returns(self) -> None:
+        from . import flow as _flow
+
+        nts: Dict[str, List[str]] = {}
+        for m in self.modules.values():
+            if not m.relpath.startswith(PKG):
+                continue
+            for c in m.classes.values():
+                if any((dotted(b) or "").split(".")[-1] == "NamedTuple" for b in c.node.bases):
+                    nts[c.name] = [s.target.id for s in c.node.body if isinstance(s, ast.AnnAssign) and isinstance(s.target, ast.Name)]
+        by_name: Dict[str, set] = {}
+        for m in self.modules.values():
+            if not m.relpath.startswith(PKG):
+                continue
+            for f in m.funcs.values():
+                ret = getattr(f.node, "returns", None)
+                if ret is None:
+                    continue
+                r = ret.value if isinstance(ret, ast.Constant) and isinstance(ret.value, str) else (dotted(ret) or "")
+                r = str(r).split(".")[-1].strip("'\"")
+                by_name.setdefault(f.name, set()).add(r)
+        _flow.NT_RETURNS.clear()
+        for name, rets in by_name.items():
+            if len(rets) == 1:
+                r = next(iter(rets))
+                if r in nts and nts[r]:
+                    _flow.NT_RETURNS[name] = nts[r]
 
     def _index_module(self, m: Module) -> None:
         is_pkg = m.relpath.endswith("__init__.py")
